@@ -290,20 +290,8 @@ Definition set_split (s : lim) (k : N) : lim :=
   mkLim (l_file s) (l_indexs s) (l_start s) (l_icur s) (l_flen s) (l_dcur s) (l_cnt s) (l_lterm s)
         (l_cic s) (l_seek s) (l_dpos s) (N.max k (l_start s)).
 
-(** init: [file] = None for a file of length 0.  [limit] = header.data_area_index of a fresh file
-    (4096 in the source; the verification hook can lower it to reach rollover quickly). *)
-Definition init (file : option lfile) (limit start pre_term split : N) : res lim :=
-  let first := (start, DATA0) in
-  res_bind
-    (match file with
-     | None =>
-         let h := mkHdr pre_term start limit 128 in
-         Ok (mkFile h [] [] BUF_SIZE, [first], HDR_LEN, BUF_SIZE)
-     | Some f =>
-         res_bind (read_indexs (idx_buf f) first (h_interval (f_hdr f))) (fun '(ixs, off) =>
-           Ok (f, ixs, off + HDR_LEN, f_len f))
-     end) (fun '(f, ixs, icur, flen) =>
-  res_bind (move_to_end f (last_ix ixs) start) (fun '(dcur, cnt) =>
+(** the tail of init, once the file, its index list, the cursors and the record count are known *)
+Definition init_finish (f : lfile) (ixs : list (N * N)) (icur flen dcur cnt start pre_term split : N) : res lim :=
   if h_interval (f_hdr f) =? 0 then Panic
   else
     (* repaired (defect 8c): last_term is recovered BEFORE split-off is applied, so that a last
@@ -323,7 +311,43 @@ Definition init (file : option lfile) (limit start pre_term split : N) : res lim
         | (_, s') => s'
         end
       else s in
-    Ok (set_split s1 split))).
+    Ok (set_split s1 split).
+
+(** repaired (C04): a kill between the data write that completes an index block and the write of
+    its index entry leaves the entry missing; read_indexs counts [interval] records per entry, so
+    init writes the missing entries (one per complete block behind the last entry) *)
+Fixpoint rebuild_index (fuel : nat) (f : lfile) (ixs : list (N * N)) (icur start cnt : N)
+  : res (lfile * list (N * N) * N) :=
+  match fuel with
+  | O => Ok (f, ixs, icur)
+  | S fu =>
+      let last := last_ix ixs in
+      let iv := h_interval (f_hdr f) in
+      if (iv =? 0) || (start + cnt <? fst last + iv) || (h_data_area (f_hdr f) <=? icur + 10)
+      then Ok (f, ixs, icur)
+      else
+        res_bind (move_to_index_by_count f last start iv) (fun '(cur, _) =>
+        let idata := write_varint (cur - snd last) in
+        rebuild_index fu (idx_write f icur idata) (ixs ++ [(fst last + iv, cur)])
+                      (icur + N.of_nat (length idata)) start cnt)
+  end.
+
+(** init: [file] = None for a file of length 0.  [limit] = header.data_area_index of a fresh file
+    (4096 in the source; the verification hook can lower it to reach rollover quickly). *)
+Definition init (file : option lfile) (limit start pre_term split : N) : res lim :=
+  let first := (start, DATA0) in
+  res_bind
+    (match file with
+     | None =>
+         let h := mkHdr pre_term start limit 128 in
+         Ok (mkFile h [] [] BUF_SIZE, [first], HDR_LEN, BUF_SIZE)
+     | Some f =>
+         res_bind (read_indexs (idx_buf f) first (h_interval (f_hdr f))) (fun '(ixs, off) =>
+           Ok (f, ixs, off + HDR_LEN, f_len f))
+     end) (fun '(f, ixs, icur, flen) =>
+  res_bind (move_to_end f (last_ix ixs) start) (fun '(dcur, cnt) =>
+  res_bind (rebuild_index (S (N.to_nat cnt)) f ixs icur start cnt) (fun '(f', ixs', icur') =>
+  init_finish f' ixs' icur' flen dcur cnt start pre_term split))).
 
 Inductive wmark := WSuccess | WSuccessToEnd | WFailure | WIndexEqualError.
 
@@ -385,9 +409,9 @@ Definition strip_log_to (s : lim) (k : N) : res lim :=
       else (l_file s, l_indexs s, l_icur s) in
     let cic := k - fst ix in
     res_bind (move_to_index_by_count f1 ix (l_start s) cic) (fun '(dcur, cnt) =>
-    let f2 := data_write f1 dcur [0; 1] in
-    (* repaired: shrink to data_cursor, grow back: nothing of the removed suffix stays *)
-    let f3 := file_set_len (file_set_len f2 dcur) (l_flen s) in
+    (* repaired: shrink to data_cursor, grow back: nothing of the removed suffix stays; no [0;1]
+       marker is written first (C04: a kill behind the marker left the suffix in place) *)
+    let f3 := file_set_len (file_set_len f1 dcur) (l_flen s) in
     Ok (mkLim f3 ixs (l_start s) icur (l_flen s) dcur cnt (l_lterm s) cic (l_seek s) dcur (l_split s)))).
 
 Definition get_last_index_info (s : lim) : N * N :=
